@@ -24,6 +24,29 @@ def runEth (seq : Nat) : List (List Nat) → Nat × List Nat
     | some s' => let r := runEth s' rest; (r.1, tx ++ r.2)
     | none => runEth seq rest
 
+/-! ### execution after the ante handler: what the messages themselves do to the sender's nonce
+
+The ante handler has advanced the sequence past every message of the transaction before the first one runs.  A call
+leaves the nonce alone; a contract creation resets it to the message's nonce (go-ethereum's `Create` derives the new
+address from it and increments it) and sets it afterwards — to `n + 1` in the code before 37d9750 (`keepAdvance = false`),
+to `max (nonce on entry) (n + 1)` since. -/
+
+/-- one executed message: its nonce and whether it is a contract creation -/
+structure EMsg where
+  nonce : Nat
+  create : Bool
+  deriving Repr, DecidableEq
+
+def execMsg (keepAdvance : Bool) (cur : Nat) (m : EMsg) : Nat :=
+  if m.create then (if keepAdvance then max cur (m.nonce + 1) else m.nonce + 1) else cur
+
+/-- the sender's nonce after the messages of one accepted transaction have run (`cur` = what the ante handler left) -/
+def execAll (keepAdvance : Bool) (cur : Nat) (ms : List EMsg) : Nat := ms.foldl (execMsg keepAdvance) cur
+
+/-- a whole Ethereum-route transaction: ante handler, then execution; `none` = refused -/
+def ethTx (keepAdvance : Bool) (seq : Nat) (ms : List EMsg) : Option Nat :=
+  (ethAccept seq (ms.map (·.nonce))).map (fun s' => execAll keepAdvance s' ms)
+
 /-- what can happen to one account between genesis and now: transactions of both routes, and anything else that
     rewrites the stored account (`other newSeq`: conversion into a vesting account, a clawback, an upgrade handler, …) -/
 inductive Ev
